@@ -1,12 +1,168 @@
 /-
-Generic bound lemmas for multiplication and truncated division (C11 / C12 / C13), and the final
-tactic `num_arith`.
+Generic bound lemmas for truncated division / remainder and for multiplication (C11 / C12, reusable
+for C13), and the tactics that feed them to `omega` as facts about the atoms `Int.tdiv a b`,
+`Int.tmod a b`, `a * b`, `Int.tdiv c a` of a goal.  Nothing here mentions a generated definition.
 -/
+import Mathlib.Tactic.Linarith
 import Verif.Proofs.Arith
+
 namespace Verif.Proofs.Arith
 open Verif.Model.Num Verif.Spec.Arith
 
-/-- the whole C11 / C12 script: unfold, split, decide the leaves -/
-macro "num_arith" : tactic => `(tactic| (num_unfold; num_finish))
+theorem tmod_facts (a b : Int) :
+    (0 ≤ a → 0 ≤ Int.tmod a b ∧ Int.tmod a b ≤ a) ∧ (a ≤ 0 → a ≤ Int.tmod a b ∧ Int.tmod a b ≤ 0) := by
+  have key : ∀ x : Int, 0 ≤ x → 0 ≤ Int.tmod x b ∧ Int.tmod x b ≤ x := by
+    intro x hx
+    refine ⟨Int.tmod_nonneg b hx, ?_⟩
+    have h1 : (Int.tmod x b).natAbs = x.natAbs % b.natAbs := Int.natAbs_tmod x b
+    have h2 : x.natAbs % b.natAbs ≤ x.natAbs := Nat.mod_le _ _
+    have h3 := Int.tmod_nonneg b hx
+    omega
+  refine ⟨key a, ?_⟩
+  intro ha
+  have := key (-a) (by omega)
+  rw [Int.neg_tmod] at this
+  omega
+
+theorem tdiv_facts (a b : Int) :
+    (0 ≤ a → 0 < b → 0 ≤ Int.tdiv a b ∧ Int.tdiv a b ≤ a) ∧
+    (0 ≤ a → b < 0 → -a ≤ Int.tdiv a b ∧ Int.tdiv a b ≤ 0) ∧
+    (a ≤ 0 → 0 < b → a ≤ Int.tdiv a b ∧ Int.tdiv a b ≤ 0) ∧
+    (a ≤ 0 → b < 0 → 0 ≤ Int.tdiv a b ∧ Int.tdiv a b ≤ -a) ∧
+    (b = -1 → Int.tdiv a b = -a) ∧ (b = 1 → Int.tdiv a b = a) ∧
+    (a ≤ 0 → b ≤ -2 → 2 * Int.tdiv a b ≤ -a) := by
+  have key : ∀ x y : Int, 0 ≤ x → 0 < y → 0 ≤ Int.tdiv x y ∧ Int.tdiv x y ≤ x := by
+    intro x y hx hy
+    exact ⟨Int.tdiv_nonneg hx (by omega), Int.tdiv_le_self y hx⟩
+  refine ⟨key a b, ?_, ?_, ?_, ?_, ?_, ?_⟩
+  · intro ha hb
+    have := key a (-b) ha (by omega)
+    rw [Int.tdiv_neg] at this; omega
+  · intro ha hb
+    have := key (-a) b (by omega) hb
+    rw [Int.neg_tdiv] at this; omega
+  · intro ha hb
+    have := key (-a) (-b) (by omega) (by omega)
+    rw [Int.neg_tdiv_neg] at this; omega
+  · intro hb; subst hb
+    have : Int.tdiv a (-1) = -(Int.tdiv a 1) := Int.tdiv_neg a 1
+    rw [this, Int.tdiv_one]
+  · intro hb; subst hb; exact Int.tdiv_one a
+  · intro ha hb
+    have h := key (-a) (-b) (by omega) (by omega)
+    rw [Int.neg_tdiv_neg] at h
+    have e := Int.mul_tdiv_add_tmod a b
+    have r := (tmod_facts a b).2 ha
+    nlinarith [h.1, r.1, r.2]
+
+/-- `y > c / x` (truncated) iff `y * x > c`, for a positive divisor and a non-negative numerator -/
+theorem gt_tdiv_iff_pos (c x y : Int) (hx : 0 < x) (hc : 0 ≤ c) : Int.tdiv c x < y ↔ c < y * x := by
+  have e := Int.mul_tdiv_add_tmod c x
+  have r0 := Int.tmod_nonneg x hc
+  have r1 := Int.tmod_lt_of_pos c hx
+  constructor
+  · intro h; nlinarith
+  · intro h
+    by_contra hn
+    have : y ≤ Int.tdiv c x := by omega
+    nlinarith
+
+/-- `y < c / x` (truncated) iff `y * x < c`, for a positive divisor and a non-positive numerator -/
+theorem lt_tdiv_iff_pos (c x y : Int) (hx : 0 < x) (hc : c ≤ 0) : y < Int.tdiv c x ↔ y * x < c := by
+  have e := Int.mul_tdiv_add_tmod c x
+  have r := (tmod_facts c x).2 hc
+  have r1 := Int.lt_tmod_of_pos c hx
+  constructor
+  · intro h; nlinarith
+  · intro h
+    by_contra hn
+    have : Int.tdiv c x ≤ y := by omega
+    nlinarith
+
+/-- `y < c / x` (truncated) iff `y * x > c`, for a negative divisor and a non-negative numerator -/
+theorem lt_tdiv_iff_neg (c x y : Int) (hx : x < 0) (hc : 0 ≤ c) : y < Int.tdiv c x ↔ c < y * x := by
+  have h := gt_tdiv_iff_pos c (-x) (-y) (by omega) hc
+  rw [Int.tdiv_neg] at h
+  have : -y * -x = y * x := Int.neg_mul_neg y x
+  rw [this] at h
+  constructor
+  · intro h'; exact h.1 (by omega)
+  · intro h'; have := h.2 h'; omega
+
+
+/-- sign and zero facts about a product (so that `omega` can treat `a * b` as an atom) -/
+theorem mul_facts (a b : Int) :
+    (0 ≤ a → 0 ≤ b → 0 ≤ a * b) ∧ (a ≤ 0 → b ≤ 0 → 0 ≤ a * b) ∧
+    (0 ≤ a → b ≤ 0 → a * b ≤ 0) ∧ (a ≤ 0 → 0 ≤ b → a * b ≤ 0) ∧
+    (a = 0 → a * b = 0) ∧ (b = 0 → a * b = 0) ∧ b * a = a * b := by
+  refine ⟨Int.mul_nonneg, ?_, ?_, ?_, ?_, ?_, Int.mul_comm b a⟩
+  · intro ha hb; nlinarith
+  · intro ha hb; nlinarith
+  · intro ha hb; nlinarith
+  · intro ha; subst ha; simp
+  · intro hb; subst hb; simp
+
+/-- Facts about the atoms of a multiplication-overflow test (INT32-C / INT30-C), by the sign of the
+    divisor: bounds of the quotients `hi / x`, `lo / x` and the meaning of the comparisons against
+    them as statements about the product `a * b`. -/
+theorem mul_cases_left (hi lo a b : Int) (hhi : 0 ≤ hi) (hlo : lo ≤ 0) :
+    (a < 0 ∧ -hi ≤ Int.tdiv hi a ∧ Int.tdiv hi a ≤ 0 ∧ (b < Int.tdiv hi a ↔ hi < a * b)) ∨
+    (a = 0 ∧ a * b = 0) ∨
+    (0 < a ∧ lo ≤ Int.tdiv lo a ∧ Int.tdiv lo a ≤ 0 ∧ (b < Int.tdiv lo a ↔ a * b < lo)) := by
+  have c : b * a = a * b := Int.mul_comm b a
+  rcases Int.lt_trichotomy a 0 with h | h | h
+  · left
+    have q := (tdiv_facts hi a).2.1 hhi h
+    have t := lt_tdiv_iff_neg hi a b h hhi
+    rw [c] at t
+    exact ⟨h, q.1, q.2, t⟩
+  · right; left; subst h; simp
+  · right; right
+    have q := (tdiv_facts lo a).2.2.1 hlo h
+    have t := lt_tdiv_iff_pos lo a b h hlo
+    rw [c] at t
+    exact ⟨h, q.1, q.2, t⟩
+
+theorem mul_cases_right (hi lo a b : Int) (hhi : 0 ≤ hi) (hlo : lo ≤ 0) :
+    (b < 0) ∨ (b = 0 ∧ a * b = 0) ∨
+    (0 < b ∧ 0 ≤ Int.tdiv hi b ∧ Int.tdiv hi b ≤ hi ∧ lo ≤ Int.tdiv lo b ∧ Int.tdiv lo b ≤ 0 ∧
+      (Int.tdiv hi b < a ↔ hi < a * b) ∧ (a < Int.tdiv lo b ↔ a * b < lo)) := by
+  rcases Int.lt_trichotomy b 0 with h | h | h
+  · left; exact h
+  · right; left; subst h; simp
+  · right; right
+    have q1 := (tdiv_facts hi b).1 hhi h
+    have q2 := (tdiv_facts lo b).2.2.1 hlo h
+    exact ⟨h, q1.1, q1.2, q2.1, q2.2, gt_tdiv_iff_pos hi b a h hhi, lt_tdiv_iff_pos lo b a h hlo⟩
+
+theorem mul_sign (a b : Int) :
+    (0 ≤ a → 0 ≤ b → 0 ≤ a * b) ∧ (a ≤ 0 → b ≤ 0 → 0 ≤ a * b) ∧
+    (0 ≤ a → b ≤ 0 → a * b ≤ 0) ∧ (a ≤ 0 → 0 ≤ b → a * b ≤ 0) :=
+  let m := mul_facts a b
+  ⟨m.1, m.2.1, m.2.2.1, m.2.2.2.1⟩
+
+/-- + − negate and everything linear: unfold, split, `omega` -/
+macro "num_arith" : tactic => `(tactic| (num_unfold <;> num_finish))
+
+/-- `/`: as `num_arith`, with the bounds of `Int.tdiv a b` as extra facts -/
+macro "num_div" a:ident b:ident : tactic => `(tactic|
+  (num_unfold <;>
+   (have hq := tdiv_facts $a $b
+    num_finish)))
+
+/-- `%`: as `num_arith`, with the bounds of `Int.tmod a b` as extra facts -/
+macro "num_mod" a:ident b:ident : tactic => `(tactic|
+  (num_unfold <;>
+   (have hr := tmod_facts $a $b
+    num_finish)))
+
+/-- `*`: as `num_arith`, after a case split on the signs of the operands that brings the product
+    facts and the meaning of the division-based overflow tests for the bounds `hi`, `lo` of the type -/
+macro "num_mul" a:ident b:ident hi:term:max lo:term:max : tactic => `(tactic|
+  (num_unfold <;>
+   (have hs := mul_sign $a $b
+    rcases mul_cases_left $hi $lo $a $b (by decide) (by decide) with hl | hl | hl <;>
+    rcases mul_cases_right $hi $lo $a $b (by decide) (by decide) with hr | hr | hr <;>
+    num_finish)))
 
 end Verif.Proofs.Arith
